@@ -93,14 +93,17 @@ def parse_after_refusal(text: str, verbose: bool = False):
         os.unlink(fh.name)
 
 
-def make_select(sel, order_seed: Optional[int] = None, pool: Optional[dict] = None):
+def make_select(sel, order_seed: Optional[int] = None, pool: Optional[dict] = None,
+                names_as: str = 'set'):
     """A PortSelect for the encoded selection.  With `pool`, equal selections share one object
-    across configurations - the way a user builds several configurations from the same pieces."""
+    across configurations - the way a user builds several configurations from the same pieces.
+    `names_as`: the container the explicit names arrive in ('set' is what the documentation
+    shows; 'frozenset', 'list', 'tuple', 'keys' are what callers also have at hand)."""
     from dznpy.adv_shell import PortSelect, PortWildcard  # pylint: disable=import-outside-toplevel
     if pool is not None:
-        key = sel if isinstance(sel, str) else tuple(sorted(sel))
+        key = sel if isinstance(sel, str) else (names_as,) + tuple(sorted(sel))
         if key not in pool:
-            pool[key] = make_select(sel, order_seed)
+            pool[key] = make_select(sel, order_seed, None, names_as)
         return pool[key]
     if isinstance(sel, str):
         return PortSelect(getattr(PortWildcard, sel))
@@ -111,6 +114,14 @@ def make_select(sel, order_seed: Optional[int] = None, pool: Optional[dict] = No
     out = set()
     for name in names:
         out.add(name)
+    if names_as == 'frozenset':
+        return PortSelect(frozenset(out))
+    if names_as == 'list':
+        return PortSelect(list(names))
+    if names_as == 'tuple':
+        return PortSelect(tuple(names))
+    if names_as == 'keys':
+        return PortSelect(dict.fromkeys(names).keys())
     return PortSelect(out)
 
 
@@ -126,13 +137,21 @@ def make_ports_cfg(enc: dict, order_seed: Optional[int] = None, pool: Optional[d
     from dznpy import adv_shell  # pylint: disable=import-outside-toplevel
     from dznpy.adv_shell import PortsCfg, PortsSemanticsCfg, MultiClientPortCfg  # pylint: disable=import-outside-toplevel
     from dznpy.scoping import NamespaceIds  # pylint: disable=import-outside-toplevel
+    names_as = enc.get('names_as', 'set')
     mcc = None
     mc = enc.get('multiclient')
-    if mc:
+    prov, req = enc['provides'], enc['requires']
+    # how arguments are passed is the caller's choice: by keyword, or by position in the order
+    # the documentation gives (sts before mts; provides, requires, multiclient; port, claim
+    # event, granting value, release event)
+    positional = zlib.crc32(json.dumps([req, prov, bool(mc), 'style'], sort_keys=True).encode()) % 2 == 1
+    if mc and positional:
+        mcc = MultiClientPortCfg(mc['port'], mc['claim'], NamespaceIds(list(mc['reply'])),
+                                 mc['release'])
+    elif mc:
         mcc = MultiClientPortCfg(port_name=mc['port'], claim_event_name=mc['claim'],
                                  claim_granting_reply_value=NamespaceIds(list(mc['reply'])),
                                  release_event_name=mc['release'])
-    prov, req = enc['provides'], enc['requires']
     all_m, all_s = {'sts': 'NONE', 'mts': 'ALL'}, {'sts': 'ALL', 'mts': 'NONE'}
     pick = zlib.crc32(json.dumps([prov, req, bool(mc)], sort_keys=True).encode()) % 3
     preset = None
@@ -148,20 +167,26 @@ def make_ports_cfg(enc: dict, order_seed: Optional[int] = None, pool: Optional[d
                       lambda: adv_shell.all_mts_all_sts(mcc) if mcc else adv_shell.all_mts_all_sts())
         elif prov == all_m:
             preset = ('all_mts_mixed_ts', lambda: adv_shell.all_mts_mixed_ts(
-                make_select(req['sts'], order_seed, pool), make_select(req['mts'], order_seed, pool),
+                make_select(req['sts'], order_seed, pool, names_as), make_select(req['mts'], order_seed, pool, names_as),
                 *([mcc] if mcc else [])))
         elif prov == all_s and not mc:
             preset = ('all_sts_mixed_ts', lambda: adv_shell.all_sts_mixed_ts(
-                make_select(req['sts'], order_seed, pool), make_select(req['mts'], order_seed, pool)))
+                make_select(req['sts'], order_seed, pool, names_as), make_select(req['mts'], order_seed, pool, names_as)))
     if preset is not None:
         STATS['via_preset_' + preset[0]] = STATS.get('via_preset_' + preset[0], 0) + 1
         return preset[1]()
     STATS['via_constructor'] = STATS.get('via_constructor', 0) + 1
+    if positional:
+        STATS['via_constructor_positional'] = STATS.get('via_constructor_positional', 0) + 1
+        sides = [PortsSemanticsCfg(make_select(enc[side]['sts'], order_seed, pool, names_as),
+                                   make_select(enc[side]['mts'], order_seed, pool, names_as))
+                 for side in ('provides', 'requires')]
+        return PortsCfg(sides[0], sides[1], mcc) if mcc is not None else PortsCfg(sides[0], sides[1])
     return PortsCfg(
-        provides=PortsSemanticsCfg(sts=make_select(enc['provides']['sts'], order_seed, pool),
-                                   mts=make_select(enc['provides']['mts'], order_seed, pool)),
-        requires=PortsSemanticsCfg(sts=make_select(enc['requires']['sts'], order_seed, pool),
-                                   mts=make_select(enc['requires']['mts'], order_seed, pool)),
+        provides=PortsSemanticsCfg(sts=make_select(enc['provides']['sts'], order_seed, pool, names_as),
+                                   mts=make_select(enc['provides']['mts'], order_seed, pool, names_as)),
+        requires=PortsSemanticsCfg(sts=make_select(enc['requires']['sts'], order_seed, pool, names_as),
+                                   mts=make_select(enc['requires']['mts'], order_seed, pool, names_as)),
         multiclient=mcc)
 
 
@@ -187,6 +212,13 @@ def make_configuration(enc: dict, fc, order_seed: Optional[int] = None,
                              ('verbose', False)):
             if kwargs[key] is default or kwargs[key] == default:
                 del kwargs[key]
+    if len(str(enc.get('filename'))) % 2:
+        # the required settings by position, in documented order
+        order = ['dezyne_filename', 'ast_fc', 'output_basename_suffix', 'fqn_encapsulee_name',
+                 'ports_cfg', 'facilities_origin', 'copyright']
+        args = [kwargs.pop(key) for key in order]
+        STATS['configuration_positional'] = STATS.get('configuration_positional', 0) + 1
+        return Configuration(*args, **kwargs)
     return Configuration(**kwargs)
 
 
